@@ -17,7 +17,7 @@ def gen(tier, rng):
         streams.append((["aligned-end"], defgen.aligned_fixed_stream(rng, k8=rep * 2 + 1)))
         streams.append((["maxlen"], defgen.maxlen_stream(rng)))
     # zlib-made streams as a second foreign encoder
-    for i, (cls, n) in enumerate([("text", 3000), ("runs", 5000), ("random", 400), ("records", 4000)] + ([("text", 60000), ("periodic", 200000)] if tier == "thorough" else [])):
+    for i, (cls, n) in enumerate([("text", 3000), ("runs", 5000), ("random", 400), ("records", 4000)] + ([("text", 40000), ("periodic", 90000)] if tier == "thorough" else [])):
         d = bytes(igz.corpus(rng, cls, n))
         c = zlib.compressobj([1, 6, 9][i % 3], zlib.DEFLATED, -15, 9, [0, zlib.Z_FIXED, zlib.Z_HUFFMAN_ONLY, zlib.Z_RLE][i % 4])
         streams.append((["zlib-%s" % cls], c.compress(d) + c.flush()))
@@ -48,8 +48,8 @@ def gen(tier, rng):
     # large streams of short-code blocks (multi-symbol lookup entries) around the decoder's 64 KiB staging boundary: (a) the first call's input
     # ends at every byte near the place where the output reaches 65536 (input runs out inside a symbol exactly when the staging buffer fills),
     # (b) whole input with the first output buffer ending at, just before and just after a block end beyond 64 KiB
-    for rep in range(1 if tier == "quick" else 4):
-        st, ends = defgen.packed_stream(rng, total=70000 if tier == "quick" else 140000)
+    for rep in range(1 if tier == "quick" else 3):
+        st, ends = defgen.packed_stream(rng, total=70000 if tier == "quick" else 100000)
         st = bytes(st); n = len(st)
         d = zlib.decompressobj(-15); outlen = 0; off = None
         for i in range(n):
